@@ -185,6 +185,7 @@ func propC14(w *World, r *Report) {
 	checkXExt(w, r)
 	checkTagPad(w, r)
 	RunCacheInputs(w, r, w.LibFuncs())
+	RunEmitAll(w, r)
 	RunControl(r, "cacheinputs", "ctlCacheInputs", RunCacheInputs)
 	checkUTF16(w, r)
 	checkMacRoman1(w, r)
@@ -661,4 +662,109 @@ func checkTagPad(w *World, r *Report) {
 		r.Fail("tagpad", key, w.Pos(fn.Pos()), fmt.Sprintf("at most %d trailing space(s) are removed from the language tag before it is appended to the BCP 47 tag, but langBcp47 has keys with %d padding spaces: such a tag does not parse and the language system is lost on reading", removed, maxPad), nil)
 	}
 	r.Floor("tagpad", 1)
+}
+
+// loopBypass: a block from which the head of l is reached again without
+// having passed a block of touch since the head (nil if every path around the
+// loop passes one).
+func loopBypass(l *natLoop, touch map[*ssa.BasicBlock]bool) *ssa.BasicBlock {
+	seen := map[*ssa.BasicBlock]bool{l.head: true}
+	work := []*ssa.BasicBlock{l.head}
+	if touch[l.head] {
+		return nil
+	}
+	for len(work) > 0 {
+		b := work[len(work)-1]
+		work = work[:len(work)-1]
+		for _, s := range b.Succs {
+			if s == l.head {
+				return b
+			}
+			if !l.body[s] || touch[s] || seen[s] {
+				continue
+			}
+			seen[s] = true
+			work = append(work, s)
+		}
+	}
+	return nil
+}
+
+// RunEmitAll: name.Info.Encode writes one record per (language, name id) of
+// the tables it is given.  In the loops over a table's ids no path around the
+// loop may bypass the append to the record list: an id that is skipped on the
+// strength of its string (not representable, empty, ...) is silently lost.
+func RunEmitAll(w *World, r *Report) {
+	r.Rule("emitall: in (*name.Info).Encode every path around a loop over the name ids of a table passes the append of that id's record to the record list — no name string is dropped because of its contents")
+	fn := w.Func("(*name.Info).Encode")
+	if fn == nil {
+		r.Fatal("(*name.Info).Encode does not resolve")
+		return
+	}
+	// appends of a pointer-to-struct record to a local slice
+	touch := map[*ssa.BasicBlock]bool{}
+	for _, b := range fn.Blocks {
+		for _, in := range b.Instrs {
+			c, ok := in.(*ssa.Call)
+			if !ok {
+				continue
+			}
+			bi, ok := c.Call.Value.(*ssa.Builtin)
+			if !ok || bi.Name() != "append" {
+				continue
+			}
+			sl, ok := c.Type().Underlying().(*types.Slice)
+			if !ok {
+				continue
+			}
+			pt, ok := sl.Elem().Underlying().(*types.Pointer)
+			if !ok {
+				continue
+			}
+			if _, ok := pt.Elem().Underlying().(*types.Struct); ok {
+				touch[b] = true
+			}
+		}
+	}
+	loops := naturalLoops(fn)
+	inner := func(b *ssa.BasicBlock) *natLoop {
+		var best *natLoop
+		for _, l := range loops {
+			if l.body[b] && (best == nil || len(l.body) < len(best.body)) {
+				best = l
+			}
+		}
+		return best
+	}
+	done := map[*natLoop]bool{}
+	var ls []*natLoop
+	for b := range touch {
+		if l := inner(b); l != nil && !done[l] {
+			done[l] = true
+			ls = append(ls, l)
+		}
+	}
+	sort.Slice(ls, func(i, j int) bool { return ls[i].head.Index < ls[j].head.Index })
+	for _, l := range ls {
+		key := r.MkKey("emitall", fnName(fn), "loop over name ids")
+		pos := fn.Pos()
+		for _, in := range l.head.Instrs {
+			if in.Pos().IsValid() {
+				pos = in.Pos()
+				break
+			}
+		}
+		if by := loopBypass(l, touch); by != nil {
+			bp := pos
+			for _, in := range by.Instrs {
+				if in.Pos().IsValid() {
+					bp = in.Pos()
+				}
+			}
+			r.Fail("emitall", key, w.Pos(bp), "an iteration of the loop over the name ids can return to the loop head without appending a record: that name string is missing from the encoded table although the Info value contains it", nil)
+		} else {
+			r.OK("emitall", key, w.Pos(pos), "every iteration appends its record")
+		}
+	}
+	r.Floor("emitall", 2)
 }
